@@ -169,7 +169,7 @@ def gen_configs(pid, tier):
                 ("gen_crash_conn_first", sc(Ops=TCP, Targets={1}, Lis=2, MaxOps=4, MaxFaults=1, MaxSteps=4)),
                 # a writer parked for send credit when the reader's host crashes (needs 5 operations)
                 ("gen_crash_writer", sc(Ops={"listen", "accept", "connect", "write"}, Faults={"crash"}, Targets={1},
-                                        MaxOps=5, MaxFaults=1, MaxSteps=6)),
+                                        MaxOps=5, MaxFaults=1, MaxSteps=5)),
                 # segments overtake each other (set_link_latency between sends): the crashed host's unread data
                 # sits only in the reorder buffer, the peer is parked in write (capacity 2, needs 6 operations)
                 ("gen_crash_reorder", sc(Ops={"listen", "accept", "connect", "write"}, Faults={"crash"}, Targets={1},
@@ -181,7 +181,7 @@ def gen_configs(pid, tier):
                                        MaxOps=1, MaxFaults=3, MaxSteps=3)),
                 # the mirror image: the acceptor is the parked writer, the connector holds unread data and crashes
                 ("gen_crash_writer_acc", sc(Ops={"listen", "accept", "connect", "write"}, Faults={"crash"}, Targets={2},
-                                            MaxOps=5, MaxFaults=1, MaxSteps=6))]
+                                            MaxOps=5, MaxFaults=1, MaxSteps=5))]
         if not q:
             cfgs = [("gen_crash_listener", sc(Ops=TCP, Targets={1}, Lis=1, MaxOps=5, MaxFaults=2, MaxSteps=5)),
                     ("gen_crash_connector", sc(Ops=TCP, Targets={2}, Lis=1, MaxOps=5, MaxFaults=1, MaxSteps=5)),
